@@ -1,6 +1,7 @@
 package main
 
 import (
+	"bytes"
 	"fmt"
 
 	u "github.com/utreexo/utreexo"
@@ -104,4 +105,45 @@ func errStr(err error) string {
 		return "err"
 	}
 	return "ok"
+}
+
+// restoreAll replaces the pointer forest and every full map forest by a copy restored from its own
+// serialization into a FRESH instance (default settings), so that the history continues on restored
+// states ("reachable states incl. restore from serialization").
+func (s *implSet) restoreAll(e *emitter) {
+	if !s.dead["pol"] {
+		guarded(e, "restore.pol", func() {
+			var b bytes.Buffer
+			if _, err := s.pol.WriteTo(&b); err != nil {
+				e.hfail("restore.pol", "WriteTo: %v", err)
+				return
+			}
+			_, rp, err := u.RestorePollardFrom(&b)
+			if err != nil {
+				e.hfail("restore.pol", "RestorePollardFrom: %v", err)
+				return
+			}
+			s.pol = *rp
+		})
+	}
+	for i, m := range s.maps {
+		i, m := i, m
+		name := mapName(m)
+		if s.dead[name] {
+			continue
+		}
+		guarded(e, "restore."+name, func() {
+			var b bytes.Buffer
+			if _, err := m.Write(&b); err != nil {
+				e.hfail("restore."+name, "Write: %v", err)
+				return
+			}
+			m2 := u.NewMapPollard(m.Full)
+			if _, err := m2.Read(&b); err != nil {
+				e.hfail("restore."+name, "Read: %v", err)
+				return
+			}
+			s.maps[i] = &m2
+		})
+	}
 }
